@@ -433,6 +433,7 @@ func FuzzUnpack(f *testing.F) {
 	}
 	f.Add([]byte{17, 0, 0, 0, 110, 0, 0, 1, 0, 0, 0, 2, 0, 0, 0, 0xFF, 0xFF}, false)
 	f.Add([]byte{23, 0, 0, 0, 118, 0, 0, 1, 0, 0, 0, 0, 0, 0, 0, 0, 0, 0, 0, 0xFF, 0xFF, 0xFF, 0xFF}, true)
+	allocConst = 512 << 10
 	f.Fuzz(func(t *testing.T, b []byte, dotu bool) {
 		if err := checkMsg(b, dotu); err != nil {
 			t.Fatalf("%v", err)
@@ -444,6 +445,7 @@ func FuzzUnpackDir(f *testing.F) {
 	for _, dotu := range []bool{false, true} {
 		f.Add(ref9p.EncodeStat(&ref9p.Stat{Name: "lib", Uid: "glenda", Gid: "sys", Muid: "bootes", Ext: "x"}, dotu), dotu)
 	}
+	allocConst = 512 << 10
 	f.Fuzz(func(t *testing.T, b []byte, dotu bool) {
 		if err := checkDir(b, dotu); err != nil {
 			t.Fatalf("%v", err)
